@@ -282,7 +282,7 @@ pub fn laws_property(vals: &[RefValue; 3]) -> Result<(bool, Vec<&'static str>), 
 	Ok((any_equal && any_diff, classes))
 }
 
-fn arb_triple() -> BoxedStrategy<[RefValue; 3]> {
+pub fn arb_triple() -> BoxedStrategy<[RefValue; 3]> {
 	(gen::arb_doc_value(gen::ValueCfg::MEDIUM), any::<u16>(), any::<u8>(), any::<u16>(), any::<u8>(), 0u8..6)
 		.prop_map(|(a, s1, k1, s2, k2, shape)| {
 			let b = near_copy(&a, s1, k1);
